@@ -4,8 +4,9 @@ from .proto import Topo, src, beh
 T2 = [['main', 'b']]
 
 
-def chain2(maxseq=2, **kw):
-    return Topo('Chain2', {'S': dict(nout=1, beh=beh('origin', tseq=T2)), 'K': dict(srcs=[src('S')])}, maxseq=maxseq, **kw)
+def chain2(maxseq=2, slow_origin=False, **kw):
+    return Topo('Chain2' + ('SlowS' if slow_origin else ''),
+                {'S': dict(nout=1, beh=beh('origin', tseq=T2, slow=slow_origin)), 'K': dict(srcs=[src('S')])}, maxseq=maxseq, **kw)
 
 
 def chain3(maxseq=2, slow=False, skip=(), **kw):
